@@ -10,6 +10,7 @@ import (
 	"go/parser"
 	"go/token"
 	"go/types"
+	"hash/fnv"
 	"os"
 	"path/filepath"
 	"sort"
@@ -61,6 +62,7 @@ func main() {
 	repo, out := os.Args[1], os.Args[2]
 	facts := map[string]string{}
 	files := map[string][]*ast.File{}
+	funcLists := map[string]string{}
 	var api []string
 	fset := token.NewFileSet()
 	filepath.Walk(repo, func(path string, info os.FileInfo, err error) error {
@@ -155,6 +157,26 @@ func main() {
 				}
 			}
 		}
+		// every function and method declared in the package: a new helper is code the models do not mirror
+		var fns []string
+		for _, f := range fs {
+			for _, d := range f.Decls {
+				if fd, ok := d.(*ast.FuncDecl); ok {
+					name := fd.Name.Name
+					if r := recvName(fd); r != "" {
+						name = r + "." + name
+					}
+					fns = append(fns, name)
+				}
+			}
+		}
+		sort.Strings(fns)
+		// (a digest: the kernel compares these strings character by character; the names themselves go
+		// into a comment of the generated file)
+		hh := fnv.New64a()
+		hh.Write([]byte(strings.Join(fns, " ")))
+		facts["funcs:"+pkg] = fmt.Sprintf("n=%d fnv64a=%016x", len(fns), hh.Sum64())
+		funcLists[pkg] = strings.Join(fns, " ")
 		var gl []string
 		for g := range globals {
 			gl = append(gl, g)
@@ -274,7 +296,16 @@ func main() {
 		}
 		fmt.Fprintf(&b, "  (%q, %q)%s\n", k, facts[k], sep)
 	}
-	b.WriteString("]\n\ndef api : List String := [\n")
+	b.WriteString("]\n\n")
+	var fl []string
+	for k := range funcLists {
+		fl = append(fl, k)
+	}
+	sort.Strings(fl)
+	for _, k := range fl {
+		fmt.Fprintf(&b, "-- funcs:%s = %s\n", k, funcLists[k])
+	}
+	b.WriteString("\ndef api : List String := [\n")
 	for i, a := range api {
 		sep := ","
 		if i == len(api)-1 {
